@@ -150,6 +150,8 @@ def build():
     DS = 'quotient_chunks_domains@'
     cp.requires('allocated', 'old(circuit).has(zeta)')
     cp.ensures('frame', f'final(circuit).extends_pure(old(circuit)) && ret@.len() == {DS}.len() && final(circuit).has_all(ret@)')
+    # the gadget computes prod_j Z_j(zeta) / Z_i(zeta) (one division per chunk); native multiplies the OTHER factors: for zeta on a chunk domain native is defined, the circuit divides by zero
+    cp.ensures('H_the_evaluation_point_lies_on_no_quotient_chunk_domain', f'zp_defined(pcs, {DS}, old(circuit).val(zeta))')
     cp.ensures('each_coefficient_is_the_product_of_the_other_vanishing_ratios',
                f'zp_defined(pcs, {DS}, old(circuit).val(zeta)) ==> forall|i: int| 0 <= i < {DS}.len() ==> final(circuit).val(#[trigger] ret@[i]) == zp(pcs, {DS}, i, old(circuit).val(zeta))')
     cp.at_start(f'let ghost ds = {DS}; let ghost zv = circuit.val(zeta); let ghost n = {DS}.len() as int;')
